@@ -339,6 +339,25 @@ def gen_mem(rng, n):
             if bm and rng.randrange(2): toks.append("bail=h5b425d")
             yield " ".join(toks) + " ops=" + ",".join(["W" + c.hex() for c in ch] + ["E"])
 
+UTEXT = ["caf\u00e9 ", "\ufeffbom", "\u6587\u5b57", "\U0001f408", "\u00fc", "\ufeff", "na\u00efve \ufeff x", "\u0416\u0416", "a\u0301"]
+def gen_utf8(rng, n):
+    """valid UTF-8 documents with multi-byte characters (incl. U+FEFF) under observing handlers, split anywhere,
+    also inside characters.  Not run through the model (the model's text codec is the identity): oracles only."""
+    for i in range(n):
+        parts = []
+        for _ in range(rng.randrange(2, 9)):
+            c = rng.randrange(10)
+            if c < 5: parts.append(rng.choice(UTEXT).encode())
+            elif c < 7: parts.append(rng.choice([b"<p>", b"</p>", b"<b class=x>", b"</b>", b"<br>", b"<!--c-->"]))
+            elif c < 8: parts.append(("<i title=\"%s\">" % rng.choice(UTEXT)).encode())
+            elif c < 9: parts.append(("<!--%s-->" % rng.choice(UTEXT)).encode())
+            else: parts.append(b"plain text " * rng.randrange(1, 4))
+        if rng.randrange(6) == 0: parts.insert(rng.randrange(len(parts) + 1), ("x" * rng.choice([1020, 1023, 1024, 1030]) + rng.choice(UTEXT)).encode())
+        data = b"".join(parts)
+        toks = rng.choice([["doc=-~-~a:~-"], ["sel=2a~A~~~a:"], ["sel=70~T70~-~-~a:", "doc=-~~-~-"], ["doc=~~a:~-"], []])
+        for j, ch in enumerate(all_chunkings(rng, data, 4)):
+            yield "L2 u%d.%d nomodel=1 isz=104 strict=0 %s ops=%s" % (i, j, " ".join(toks), ",".join(["W" + c.hex() for c in ch] + ["E"]))
+
 def main():
     fam, seed, n = sys.argv[1], int(sys.argv[2]), int(sys.argv[3])
     rng = random.Random(seed)
@@ -348,6 +367,8 @@ def main():
         for l in gen_l2(rng, n, fam[2:], fam[2] + fam[3]): print(l)
     elif fam.startswith("grp-"):
         for l in gen_groups(rng, max(1, n // 5), fam[4:], 5): print(l)
+    elif fam == "utf8":
+        for l in gen_utf8(rng, max(1, n // 4)): print(l)
     elif fam == "pairs":
         for l in gen_pairs(rng, max(1, n // 4)): print(l)
     elif fam == "mem":
